@@ -194,6 +194,12 @@ package taskfile
 //@   init altURL := nil
 //@   site (*URL).JoinPath#0 ghost altURL := result
 //@   ensures result.1 == nil ==> result.0 == u || result.0 == altURL                                            [C20]
+// the URL it was ASKED about belongs to the caller (it is the location of the node: relative includes resolve against
+// it, with or without the network): the only thing ever written into it is "/" for an empty path
+//@   site store:URL.Path#0 requires arg0 == u && arg0.Path == "" && arg1 == "/"                                 [C20]
+//@   nosite strings.Trim                                                                                        [C20]
+//@   nosite strings.TrimRight                                                                                   [C20]
+//@   nosite strings.TrimSuffix                                                                                  [C20]
 //@   site http.NewRequestWithContext#0 requires arg0 == ctx                                                    [C20]
 //@   nosite http.Head                                                                                          [C20]
 //@   nosite http.Get                                                                                           [C20]
